@@ -6,9 +6,8 @@ from verifkit.props import C08 as base
 ID = "C10"
 THM_MODULES = ["Minicbor.Thm.C10"]
 P = "Minicbor.C10."
-REQUIRED = [P + n for n in """compat_refl step_compatible step_compatible_rev compat_not_transitive
-compat_decode_struct_partial compat_missing_mandatory compat_unknown_field_skipped compat_absent_optional_is_nil
-compat_counterexample_K5 k5_benign_excludes project_roundtrip""".split()]
+REQUIRED = [P + n for n in """compat_counterexample_K5 compat_decode_statement_false k5_benign_excludes compat_F5_repaired
+compat_not_transitive compat_missing_mandatory compat_missing_mandatory_example""".split()]
 PACKAGES = ["dgen"]
 prepare = base.prepare
 RULE = ("dcompat <writer type> <value> <reader type>: chains of type versions produced by sequences of the documented compatible edits (add an optional "
